@@ -13,11 +13,11 @@ def main():
     chk.assume('pivots / diagonal entries non-zero (the divisors of the executed code)', 'operator identities for SOR/SSOR/ILU/polynomial are checked with the none filter; with the unit filter only "filter applied last" + Jacobi/scale identities')
     import os
     if os.environ.get('C08_ONLY_BLOCKED') is None:
-        e2prop.run_e2(chk, e2prop.e2_harness_path('c08_e2.cpp'), 'c08_e2', timeout=30 if quick else 300, harness_args=['--bounds'] + b, max_group=1)
+        e2prop.run_e2(chk, e2prop.e2_harness_path('c08_e2.cpp'), 'c08_e2', timeout=30 if quick else 100, harness_args=['--bounds'] + b, max_group=1)
     # blocked slice
-    chk.bounds.append('E2 blocked slice: SparseMatrixBCSR<.,.,2,2> with 1..%s block rows, stored block diagonal and every off-diagonal block pattern; block SOR, block SSOR, block ILU(0) on patterns without dropped fill; none filter' % ('2' if quick else '3'))
+    chk.bounds.append('E2 blocked slice: SparseMatrixBCSR<.,.,2,2> with 1..2 block rows, stored block diagonal and every off-diagonal block pattern; Jacobi, block SOR, block SSOR, block ILU(0) on patterns without dropped fill; none filter')
     chk.functions += ['Solver::SORPrecondWithBackend<generic,BCSR>::_apply_intern', 'Solver::SSORPrecondWithBackend<generic,BCSR>::{apply,_apply_intern}', 'Solver::ILUPrecondWithBackend<generic,BCSR> + Intern::ILUCoreBlocked', 'Tiny::Matrix<SymReal,2,2>::set_inverse']
-    e2prop.run_e2(chk, e2prop.e2_harness_path('c08b_e2.cpp'), 'c08b_e2', timeout=30 if quick else 300, harness_args=['--bounds', '2' if quick else '3'], max_group=1)
+    e2prop.run_e2(chk, e2prop.e2_harness_path('c08b_e2.cpp'), 'c08b_e2', timeout=30 if quick else 100, harness_args=['--bounds', '2'], max_group=1)
     return chk.finish(
         explanation='Bounded symbolic check: the preconditioner objects created by the public factory functions run on SparseMatrixCSR over a symbolic real scalar for every pattern in the bound; z3 decides the multiply-back identity with the textbook operator (Jacobi, SOR, SSOR, Neumann polynomial, ILU(p) against an independent dense level-of-fill factorisation, exact inverse when the pattern is complete) for ALL real matrix values, omega and inputs, also after a matrix value update followed by init_numeric.',
         rule=e2prop.E2_RULE, trusted=e2prop.E2_TRUSTED)
